@@ -133,15 +133,15 @@ def run(ctx):
     corpus = items.all_items()
     # (a) literals, in Rust, sharded
     maxlen = ctx.pick(3, 4)
-    nrand = ctx.pick(4000, 120000)
+    nrand = ctx.pick(4000, 60000)
     nsh = common.NCPU
 
     def bulk(k):
-        return inproc.run_mode("bulk18", [], args=[inproc.hexs(ALPHABET), str(maxlen), str(k), str(nsh), str(nrand), str(ctx.seed), "lite" if ctx.quick() else "full"], timeout=2400)
+        return inproc.run_mode("bulk18", [], args=[inproc.hexs(ALPHABET), str(maxlen), str(k), str(nsh), str(nrand), str(ctx.seed), "lite"], timeout=2400)
 
     # (b)+(c)
     cases = []
-    for d, src, kind in mutated_items(rng, corpus, ctx.pick(12000, 300000)) + placement_items(rng, table, ctx.pick(40000, 1000000)):
+    for d, src, kind in mutated_items(rng, corpus, ctx.pick(12000, 300000)) + placement_items(rng, table, ctx.pick(40000, 600000)):
         cases.append((d, src, kind))
     # every shape x every derive with no attribute at all
     for shape in SHAPES:
